@@ -123,12 +123,14 @@ def to_string_driver(run):
 @driver(DT + "replace")
 def replace_driver(run):
     n = 3 if run.tier == "thorough" else 2
-    run.bound = f"datetime vectors of <= {n} elements (units D, s; NaT) x scalar and vector replacements of year / month / day (+ hour for unit s)"
+    run.bound = f"datetime vectors of <= {n} elements (units D, s; NaT) x scalar, vector and mixed scalar + vector replacements of year / month / day (+ hour for unit s)"
     for u, vals in run.inputs(dt_vectors(n, ("D", "s"))):
         vals = [v for v in vals if not v.startswith(("0001", "9999", "2020-02-29"))]
         x = mkdt(u, vals)
         objs = x.astype(object)
-        kws = [{"year": 2000}, {"month": 1, "day": 2}, {"day": [1 + i for i in range(len(x))]}, {"year": 2001, "month": [2] * len(x)}]
+        kws = [{"year": 2000}, {"month": 1, "day": 2}, {"day": [1 + i for i in range(len(x))]}, {"year": 2001, "month": [2] * len(x)},
+               # scalar and vector components together: only the COMBINATION has to be a valid date (31 December -> 1 February)
+               {"month": 2, "day": [1 + i for i in range(len(x))]}, {"day": 30, "month": [4 + i for i in range(len(x))]}]
         if u == "s":
             kws.append({"hour": 5})
         for kw in kws:
